@@ -6,6 +6,7 @@ import (
 	"path/filepath"
 	"sort"
 	"strings"
+	"sync/atomic"
 
 	"vctl/internal/report"
 	"vctl/internal/rng"
@@ -40,7 +41,7 @@ func injectFailures(r *rng.R, s *spec.Spec, e *Env) map[string]string {
 			kinds[t.Label()] = "failing-output-check"
 		case 3:
 			t.SleepIf = "markers/slow_" + t.Name
-			t.Timeout = "1s"
+			t.Timeout = "3s"
 			kinds[t.Label()] = "timeout"
 		default:
 			t.FailIf = "markers/fail_" + t.Name
@@ -70,6 +71,7 @@ func setFailureMarkers(e *Env, s *spec.Spec, failing bool) {
 // C05Part is the process-level part of C05 (the report is owned by the caller).
 func C05Part(run *report.Run, st *Setup, tier string) {
 	n := tierN(tier, 48, 600)
+	var abandoned atomic.Int32
 	Parallel(n, func(i int) {
 		r := rng.Derive(uint64(run.Seed), "C05", fmt.Sprint(i))
 		pf := spec.DefaultProfile()
@@ -115,6 +117,13 @@ func C05Part(run *report.Run, st *Setup, tier string) {
 			p, obs, vs, err := env.Step(BuildOpts{}, cfg, fmt.Sprintf("phase%d", phase), false)
 			if err != nil {
 				run.Infra(err.Error())
+				return
+			}
+			if LoadTimeout(vs) {
+				run.Count("histories_abandoned_after_load_induced_timeout", 1)
+				if abandoned.Add(1) > 3 {
+					run.Inconclusive("more than 3 histories hit a timeout attribute without an injected delay (machine too loaded to judge)")
+				}
 				return
 			}
 			run.Eval(1)
